@@ -1,24 +1,99 @@
-/* ghost call log written by stubs/drv_stubs.c (definitions there: #define GX before including) */
-#ifndef GX
-#define GX extern
+/* ghost call log written by stubs/drv_stubs.c.  All ghost variables are fields of ONE object G so that a
+ * contract's frame needs a single target (the dynamic-frame instrumentation's cost grows with the number of targets). */
+#ifndef DRV_GHOST_H
+#define DRV_GHOST_H
+typedef struct {
+  int g_seq;
+  int g_xerbla_calls, g_xerbla_arg;
+  int g_at_StatAlloc, g_at_StatFree, g_at_gsequ, g_at_laqgs, g_at_colorder, g_at_strf, g_at_growth, g_at_langs, g_at_gscon, g_at_gstrs, g_at_gsrfs, g_at_query, g_at_destroyAC, g_at_destroyAA, g_at_create, g_at_strf_init, g_at_finalize, g_at_malloc, g_at_free;
+  int g_n_gstrs, g_n_strf, g_n_gsrfs, g_n_gscon, g_n_malloc, g_n_free, g_n_gsequ, g_n_laqgs, g_n_growth, g_n_query;
+  trans_t g_gstrs_trans, g_gsrfs_trans, g_init_trans;
+  char g_langs_norm, g_gscon_norm;
+  SuperMatrix *g_gstrs_B, *g_strf_A, *g_gsrfs_A, *g_gsrfs_B, *g_gsrfs_X, *g_langs_A, *g_growth_A, *g_colorder_A, *g_gsequ_A, *g_laqgs_A, *g_create_A;
+  SuperMatrix *g_gstrs_L, *g_gstrs_U;
+  int_t *g_gstrs_perm_r, *g_gstrs_perm_c;
+  int_t g_growth_ncols;
+  equed_t g_gsrfs_equed;
+  int_t g_strf_info;
+  int_t g_gsequ_info;
+  @R@ g_rcond_out;
+  void *g_create_nzval, *g_create_rowind, *g_create_colptr;
+  int_t g_create_m, g_create_n, g_create_nnz;
+  Stype_t g_create_stype;
+  int_t g_cfg_strf_info;
+  equed_t g_cfg_equed;
+  void *g_AC_token;
+} drv_ghost_t;
+#ifdef GX_DEFINE
+drv_ghost_t GH_;
+#else
+extern drv_ghost_t GH_;
 #endif
-GX int g_seq;
-GX int g_xerbla_calls, g_xerbla_arg;
-GX int g_at_StatAlloc, g_at_StatFree, g_at_gsequ, g_at_laqgs, g_at_colorder, g_at_strf, g_at_growth, g_at_langs, g_at_gscon, g_at_gstrs, g_at_gsrfs, g_at_query, g_at_destroyAC, g_at_destroyAA, g_at_create, g_at_strf_init, g_at_finalize, g_at_malloc, g_at_free;
-GX int g_n_gstrs, g_n_strf, g_n_gsrfs, g_n_gscon, g_n_malloc, g_n_free, g_n_gsequ, g_n_laqgs, g_n_growth, g_n_query;
-GX trans_t g_gstrs_trans, g_gsrfs_trans, g_init_trans;
-GX char g_langs_norm, g_gscon_norm;
-GX SuperMatrix *g_gstrs_B, *g_strf_A, *g_gsrfs_A, *g_gsrfs_B, *g_gsrfs_X, *g_langs_A, *g_growth_A, *g_colorder_A, *g_gsequ_A, *g_laqgs_A, *g_create_A;
-GX SuperMatrix *g_gstrs_L, *g_gstrs_U;
-GX int_t *g_gstrs_perm_r, *g_gstrs_perm_c;
-GX int_t g_growth_ncols;
-GX equed_t g_gsrfs_equed;
-GX int_t g_strf_info;
-GX int_t g_gsequ_info;
-GX @R@ g_rcond_out;
-GX void *g_create_nzval, *g_create_rowind, *g_create_colptr;
-GX int_t g_create_m, g_create_n, g_create_nnz;
-GX Stype_t g_create_stype;
-GX int_t g_cfg_strf_info;
-GX equed_t g_cfg_equed;
-GX void *g_AC_token;
+#define g_seq (GH_.g_seq)
+#define g_xerbla_calls (GH_.g_xerbla_calls)
+#define g_xerbla_arg (GH_.g_xerbla_arg)
+#define g_at_StatAlloc (GH_.g_at_StatAlloc)
+#define g_at_StatFree (GH_.g_at_StatFree)
+#define g_at_gsequ (GH_.g_at_gsequ)
+#define g_at_laqgs (GH_.g_at_laqgs)
+#define g_at_colorder (GH_.g_at_colorder)
+#define g_at_strf (GH_.g_at_strf)
+#define g_at_growth (GH_.g_at_growth)
+#define g_at_langs (GH_.g_at_langs)
+#define g_at_gscon (GH_.g_at_gscon)
+#define g_at_gstrs (GH_.g_at_gstrs)
+#define g_at_gsrfs (GH_.g_at_gsrfs)
+#define g_at_query (GH_.g_at_query)
+#define g_at_destroyAC (GH_.g_at_destroyAC)
+#define g_at_destroyAA (GH_.g_at_destroyAA)
+#define g_at_create (GH_.g_at_create)
+#define g_at_strf_init (GH_.g_at_strf_init)
+#define g_at_finalize (GH_.g_at_finalize)
+#define g_at_malloc (GH_.g_at_malloc)
+#define g_at_free (GH_.g_at_free)
+#define g_n_gstrs (GH_.g_n_gstrs)
+#define g_n_strf (GH_.g_n_strf)
+#define g_n_gsrfs (GH_.g_n_gsrfs)
+#define g_n_gscon (GH_.g_n_gscon)
+#define g_n_malloc (GH_.g_n_malloc)
+#define g_n_free (GH_.g_n_free)
+#define g_n_gsequ (GH_.g_n_gsequ)
+#define g_n_laqgs (GH_.g_n_laqgs)
+#define g_n_growth (GH_.g_n_growth)
+#define g_n_query (GH_.g_n_query)
+#define g_gstrs_trans (GH_.g_gstrs_trans)
+#define g_gsrfs_trans (GH_.g_gsrfs_trans)
+#define g_init_trans (GH_.g_init_trans)
+#define g_langs_norm (GH_.g_langs_norm)
+#define g_gscon_norm (GH_.g_gscon_norm)
+#define g_gstrs_B (GH_.g_gstrs_B)
+#define g_strf_A (GH_.g_strf_A)
+#define g_gsrfs_A (GH_.g_gsrfs_A)
+#define g_gsrfs_B (GH_.g_gsrfs_B)
+#define g_gsrfs_X (GH_.g_gsrfs_X)
+#define g_langs_A (GH_.g_langs_A)
+#define g_growth_A (GH_.g_growth_A)
+#define g_colorder_A (GH_.g_colorder_A)
+#define g_gsequ_A (GH_.g_gsequ_A)
+#define g_laqgs_A (GH_.g_laqgs_A)
+#define g_create_A (GH_.g_create_A)
+#define g_gstrs_L (GH_.g_gstrs_L)
+#define g_gstrs_U (GH_.g_gstrs_U)
+#define g_gstrs_perm_r (GH_.g_gstrs_perm_r)
+#define g_gstrs_perm_c (GH_.g_gstrs_perm_c)
+#define g_growth_ncols (GH_.g_growth_ncols)
+#define g_gsrfs_equed (GH_.g_gsrfs_equed)
+#define g_strf_info (GH_.g_strf_info)
+#define g_gsequ_info (GH_.g_gsequ_info)
+#define g_rcond_out (GH_.g_rcond_out)
+#define g_create_nzval (GH_.g_create_nzval)
+#define g_create_rowind (GH_.g_create_rowind)
+#define g_create_colptr (GH_.g_create_colptr)
+#define g_create_m (GH_.g_create_m)
+#define g_create_n (GH_.g_create_n)
+#define g_create_nnz (GH_.g_create_nnz)
+#define g_create_stype (GH_.g_create_stype)
+#define g_cfg_strf_info (GH_.g_cfg_strf_info)
+#define g_cfg_equed (GH_.g_cfg_equed)
+#define g_AC_token (GH_.g_AC_token)
+#endif
